@@ -641,8 +641,58 @@ class Intervals:
         return self.val(self.entry[bb], op)
 
 
-def const_table_summary(mir, name):
-    """summary for a local fn whose every return is a constant selected by discriminant(*arg1): {variant: value}"""
+def const_table_summary(mir, name, ast=None):
+    """summary for a local fn whose every return is a constant selected by discriminant(*arg1): {variant: value}.
+    First the literal form (`match self { A => 255, B => 1020 }`); otherwise - with the syntax tree at hand - the function is
+    normalised (module helpers inlined) and its decision table evaluated per variant, so that `self.framing().max_length`
+    over named constant structs yields the same table."""
+    t = _const_table_literal(mir, name)
+    if t is not None or ast is None:
+        return t
+    import tabeval
+    from mirq import inline_calls, strip_refs
+    b = mir.body(name)
+    if b is None:
+        return None
+    mod = name.rsplit("::", 2)[0] + "::"
+    b = inline_calls(b, lambda d: d.startswith(mod) and "{closure" not in d and d != name, depth=3)
+    try:
+        rows = b.decision_rows()
+    except Exception:
+        return None
+
+    class _C:
+        pass
+    c = _C()
+    c.mir, c.ast = mir, ast
+    cur = {}
+
+    def leaf(o, model):
+        if o[0] == "discr" and strip_refs(o[1]) == ("arg", 1):
+            return cur["v"]
+        return None
+    model = tabeval.Model(c, b, None, local_prefix=mod, extra_leaf=leaf)
+    table = {}
+    for vi in range(0, 8):
+        cur["v"] = vi
+        model.ev.reset()
+        try:
+            ms = model.ev.matching_rows(rows)
+            vals = {model.ev.ev(r[1][3][0]) for r in ms if len(r[1]) > 3 and r[1][3]}
+        except (tabeval.Unknown, tabeval.Panic):
+            return None
+        if len(vals) == 1:
+            v = vals.pop()
+            if isinstance(v, int):
+                table[vi] = v
+    if not table:
+        return None
+    if len(set(table.values())) == 1 and len(table) == 8:
+        return {None: next(iter(table.values()))}
+    return table
+
+
+def _const_table_literal(mir, name):
     b = mir.body(name)
     if b is None:
         return None
